@@ -206,9 +206,13 @@ CLAIMED = {
         "file list, order, strategy and scripted stop/ignore/override answers, a plan whose destinations are pairwise "
         "different and absent from the initial tree ends successfully in the REAL renamer model, having reported exactly "
         "the planned renames in processing order (proved for the dry-run renamer by set algebra and transferred through "
-        "the C05 simulation). Partial: that the composition of these renames equals the plan applied to the initial tree "
-        "(identities, contents), uniformly ordered chains, and free plans in path/directory mode are NOT theorems; they "
-        "are decided by the oracle on every function from <=3 (quick) / <=4 (thorough) files into a name universe in every order "
+        "the C05 simulation). The plan applied (free_plan_applied_name_mode): for the same plans the final tree of the "
+        "real renamer model consists exactly of the initial entries, each with its identity, kind and content, the "
+        "selected ones at their generated paths and every other one where it was - nothing added, lost or moved "
+        "besides (induction over the real run with the exact effect of renaming a leaf, renameAbs_leaf / "
+        "name_call_effect). Partial: plans that are not free (uniformly ordered chains, cycles), path and directory "
+        "mode and trees with symbolic links are NOT covered by these theorems; they are decided by the oracle on every "
+        "function from <=3 (quick) / <=4 (thorough) files into a name universe in every order "
         "(exhaustive, labelled as a test) and on random multi-root runs in all modes, with the final tree compared "
         "with the independently computed expectation and with the model.",
         "Trusted: Lean kernel; hand-written pipeline model tied by sampled correspondence; plan values are the observed "
